@@ -1,5 +1,5 @@
 rc_target("c20_threads", flavour="sched", wrap=True)
-plan("C20", [T("c20_threads", 800, 8000)], min_nt=100,
+plan("C20", [T("c20_threads", 3000, 25000)], min_nt=100,
      rule="thread trees x schedules under the controlled scheduler with a virtual clock",
      technique="property-based testing over (thread tree, schedule) pairs: controlled scheduler, event-log oracle, join accounting in the scheduler's thread table",
      level_text="Generated search over launch/finish/join interleavings: the library's real thread wrapper, at-exit chain and managed-thread "
